@@ -77,7 +77,7 @@ class FloatField(Field):
                     ),
                     d=self.__decimal_digits,
                     format=self.__format,
-                )
+                ).replace(".", self.__sep)
                 value = value[: self.size]
             else:
                 for d in range(self.__decimal_digits, -1, -1):
@@ -85,7 +85,7 @@ class FloatField(Field):
                         round(self.value, d),
                         d=d,
                         format=self.__format,
-                    )
+                    ).replace(".", self.__sep)
                     if len(value) <= self._size:
                         break
         return value.rjust(self.size)
